@@ -145,13 +145,13 @@ func isPatternMapped(serveMux *http.ServeMux, pattern string) bool {
 }
 
 func (c *Container) Remove(ws *WebService) error {
+	c.webServicesLock.Lock()
+	defer c.webServicesLock.Unlock()
 	if c.ServeMux == http.DefaultServeMux {
 		errMsg := fmt.Sprintf("cannot remove a WebService from a Container using the DefaultServeMux: ['%v']", ws)
 		log.Print(errMsg)
 		return errors.New(errMsg)
 	}
-	c.webServicesLock.Lock()
-	defer c.webServicesLock.Unlock()
 	// build a new ServeMux and re-register all WebServices
 	newServeMux := http.NewServeMux()
 	newServices := []*WebService{}
